@@ -36,6 +36,9 @@ type vstate struct {
 	saved   [2]uintptr
 	copied  bool // holds a copy of the mocked value of another variable (slots = what was mocked when the copy was taken)
 	src     *vstate // the variable the copy was taken from
+	prev    *vstate // the copied state this variable's own mock was started over (restored by Reset)
+	stale   bool    // the source of the copy was reset: the value stays in the variable, calls through it are no longer judged
+	ever    bool    // the variable was mocked through goom at some point of the history
 }
 
 func guard(f func()) (pv interface{}) {
@@ -133,6 +136,10 @@ func runHist(ci interface{}, s *vkit.Stats) error {
 		if ii.IsNil(v) {
 			return fmt.Errorf("%s: the variable was mocked but is nil", where)
 		}
+		if t.copied && t.stale {
+			s.Exclude("copy-called-after-its-source-was-reset")
+			return nil
+		}
 		if t.copied && t.src.slots[m.Tag] != t.slots[m.Tag] {
 			// the method was mocked (again) on the source after the copy was taken: whether the copy sees the newer replacement
 			// depends on whether goom extended the method table in place - the statement fixes neither, both are replacements
@@ -203,12 +210,16 @@ func runHist(ci interface{}, s *vkit.Stats) error {
 		t := vs[v]
 		switch op.K {
 		case "apply", "ret":
+			if t.copied {
+				// the variable holds a value copied from another mocked variable: mocking it starts a mock of its own (a fresh
+				// method table: only what is mocked now answers), the other variable is not affected, Reset puts the copy back
+				ns := &vstate{slots: map[int]*slot{}, prev: t, ever: true}
+				vs[v] = ns
+				t = ns
+				s.Class("mock-started-on-a-variable-that-holds-a-copied-mock")
+			}
 			if t.mocked && t.builder != bi {
 				bi = t.builder // one variable is mocked through one builder at a time
-			}
-			if t.copied {
-				s.Exclude("mock-on-a-variable-that-holds-a-copied-mock")
-				continue
 			}
 			if t.mocked && t.orphan {
 				// its builder was dropped: the statement promises that the existing mock keeps working, not that
@@ -275,7 +286,7 @@ func runHist(ci interface{}, s *vkit.Stats) error {
 			if pv != nil {
 				return fmt.Errorf("step %d: mocking %s.%s on variable %d (%s) panicked: %v", step, ii.Name, m.Name, v, op.K, pv)
 			}
-			t.mocked, t.builder = true, bi
+			t.mocked, t.builder, t.ever = true, bi, true
 			t.slots[m.Tag] = sl
 			fp = append(fp, fmt.Sprintf("%s%d:%d", op.K[:1], v, m.Tag%100))
 			if ii.IsNil(v) {
@@ -346,8 +357,8 @@ func runHist(ci interface{}, s *vkit.Stats) error {
 			// built with): it stays callable for as long as that variable holds it, whatever happens to the first variable
 			dst := (v + 1 + vkit.Pick(op.I[3], 2)) % 3
 			d := vs[dst]
-			if !t.mocked || t.copied || d.mocked {
-				continue
+			if !t.mocked || t.copied || d.mocked || d.ever {
+				continue // (a variable goom has mocked before is not assigned by the program between two of its mocks)
 			}
 			reflect.ValueOf(ii.Var(dst)).Elem().Set(reflect.ValueOf(ii.Var(v)).Elem())
 			snap := map[int]*slot{}
@@ -388,17 +399,24 @@ func runHist(ci interface{}, s *vkit.Stats) error {
 				if tt.mocked && tt.builder == bi && !tt.orphan {
 					// copies of this activation's value held by other variables: the statement promises nothing about them once
 					// the mock was reset; they are put back to nil and no longer judged
-					for cv, ct := range vs {
+					for _, ct := range vs {
 						if ct.copied && ct.mocked && ct.src == tt {
-							ii.SetNil(cv)
-							vs[cv] = &vstate{slots: map[int]*slot{}}
+							ct.stale = true // (the variable keeps the value: assigning it here would be a program assignment between two mocks)
 							s.Class("copy-retired-when-its-source-was-reset")
+						} else if ct.prev != nil && ct.prev.src == tt {
+							ct.prev.stale = true
 						}
 					}
 					tt.mocked = false
 					tt.slots = map[int]*slot{}
 					if w := ii.Words(vv); w != tt.saved {
 						return fmt.Errorf("step %d: after Reset variable %d of %s holds words %#x, it held %#x before it was mocked", step, vv, ii.Name, w, tt.saved)
+					}
+					if tt.prev != nil {
+						// the variable holds the copied value again
+						vs[vv] = tt.prev
+						s.Class("reset-puts-the-copied-mock-back")
+						continue
 					}
 					if tt.real {
 						if id := ii.ImplID(vv); id != 100+vv {
